@@ -18,17 +18,21 @@ CHECKS = {
         'level': 'exploration',
         'engine': 'fssim',
         'technique': DST + ': seeded source trees / destination states / transfers run through the real Copier on a real '
-                           'scratch directory with seeded completion orders, transient faults and short reads; outcome '
-                           'compared with an independent reference model of the documented destination rules',
+                           'scratch directory with seeded completion orders, transient faults and short reads, as single '
+                           'calls and as histories on one long-lived file system object (copy, parts of the destination '
+                           'removed through the file system or behind its back, copy again); every outcome compared with an independent reference model of the documented destination rules',
         'design_ref': 'DESIGN.md section 6 (C22), section 5.3',
         'level_text': 'Seeded exploration of small source trees (sizes around part and buffer boundaries), destination states, '
                       'treat-destination-as modes, list sources, trailing slashes and multi-transfer calls through three entry '
                       'points of the real copy tool, under seeded I/O completion orders and injected retryable faults. Every '
                       'run is decided by an independent reference model (byte-identical destination tree and untouched '
                       'source, or one of the documented exception classes); the model itself must reproduce the project\'s '
-                      'own 324-entry behaviour table before any run counts. Samples inputs and schedules; not a proof.',
+                      'own 324-entry behaviour table before any run counts. A third of the runs are histories of two or '
+                      'three copies through the same file system object with files or directory trees of the destination '
+                      'removed in between (rmtree / remove / rmdir of that object, or os / shutil); each copy is judged '
+                      'against the tree found on disk when it starts. Samples inputs and schedules; not a proof.',
         'level_note': 'Local file system only (FileAndDirectoryError cannot arise there and is not exercised); <=6 files, '
-                      'part size 4..40 bytes, <=3 transfers, <=8 faults per run; faults only at operations the copier runs '
+                      'part size 4..40 bytes, <=3 transfers per copy, <=3 copies and <=2 removals between two copies, <=8 faults per run; faults only at operations the copier runs '
                       'under retry_transient_errors; schedule-dependent transfer combinations are pruned by the model; trusts '
                       'the scratch file system, CPython asyncio on the simulated loop and the reference model.',
         'scenarios': [{'module': 'worlds.fs.copy', 'quick': 16000, 'thorough': 200000,
@@ -40,7 +44,9 @@ CHECKS = {
                             'multi_transfer', 'error_expected', 'error_expected:FileNotFoundError',
                             'error_expected:IsADirectoryError', 'error_expected:NotADirectoryError',
                             'transient_fault_retried', 'overwrite_existing_file', 'overwrite_longer_file',
-                            'buffer_smaller_than_part', 'empty_dir_source', 'files_copied'],
+                            'buffer_smaller_than_part', 'empty_dir_source', 'files_copied', 'later_round_of_history',
+                            'copy_after_removal_through_the_fs', 'copy_after_removal_behind_the_fs',
+                            'copy_into_removed_directory', 'recreates_removed_directory_of_earlier_copy'],
     },
     'C23': {
         'level': 'exploration',
